@@ -299,7 +299,8 @@ theorem randomFilter_nodate (c : Ctx) : ∀ e ∈ (randomFilter c).flatMap splic
     window conjuncts -/
 theorem attrCondition_idxGood (cfg : Cfg) (c : Ctx) (h : TraceCfg cfg c) (terms : List Term) (cond : Cond) (agg : String)
     (m : Sel) (hm : attrCondition c terms cond agg = .ok m) : IdxGood cfg (winT c) c.attrsTable m := by
-  unfold attrCondition at hm
+  obtain ⟨_, hm⟩ := attrCondition_core hm
+  unfold attrConditionCore at hm
   cases hts : mapOk termSql terms with
   | error e => simp [hts, bind, Except.bind] at hm
   | ok ts =>
@@ -345,10 +346,10 @@ theorem contains_of_mem (ok : List Alias) (a : Alias) (h : a ∈ ok) : ok.contai
 theorem attrless_good (cfg : Cfg) (c : Ctx) (h : TraceCfg cfg c) : GoodD cfg (winT c) (attrless c) := by
   unfold attrless
   dsimp only
-  have e1 : ∀ ok, bodyConfined cfg (winT c) ok (.mk [] true [simpleCol "trace_id" "trace_id"] (some (.col (.raw c.tracesTable) "traces")) [] none
-      (some (and_ [and_ [ge (.raw "timestamp_ns") (.int c.fromNs), le (.raw "timestamp_ns") (.int c.toNs)]]))
-      [] none [.orderBy (.raw "timestamp_ns") .desc] (some (.int c.limit))) = true :=
-    fun ok => dataScan_confined cfg _ rfl _ h.traces _ _ (any_of_mem _ _ _ (by simp) (lowerT c "timestamp_ns" (by decide))) (any_of_mem _ _ _ (by simp) (upperTle c "timestamp_ns" (by decide))) ok _ _ _ _ _ _ _ _
+  have e1 : ∀ ok, bodyConfined cfg (winT c) ok (.mk [] false [simpleCol "trace_id" "trace_id"] (some (.col (.raw c.tracesTable) "traces")) [] none
+      (some (and_ [and_ [ge (.raw "timestamp_ns") (.int c.fromNs), lt (.raw "timestamp_ns") (.int c.toNs)]]))
+      [.raw "trace_id"] none [.orderBy (.call "max" [.raw "timestamp_ns"]) .desc] (some (.int c.limit))) = true :=
+    fun ok => dataScan_confined cfg _ rfl _ h.traces _ _ (any_of_mem _ _ _ (by simp) (lowerT c "timestamp_ns" (by decide))) (any_of_mem _ _ _ (by simp) (upperT c "timestamp_ns" (by decide))) ok _ _ _ _ _ _ _ _
   have e2 : ∀ ok, bodyConfined cfg (winT c) ok (.mk [] false
       [simpleCol "trace_id" "trace_id", .col (.call "groupArray(100)" [.raw "span_id"]) "span_id"] (some (.col (.raw c.tracesTable) "traces")) [] none
       (some (and_ [and_ [ge (.raw "timestamp_ns") (.int c.fromNs), lt (.raw "timestamp_ns") (.int c.toNs),
@@ -613,15 +614,54 @@ theorem tagsMain_some (cfg : Cfg) (c : Ctx) (h : TraceCfg cfg c) (script : Scrip
           subst hm
           exact attrCondition_idxGood cfg c h _ _ _ _ hm'
 
+/-- `AllTagsRequestPlanner.Process`: a scan of the key-value index between the date bounds -/
+theorem allTags_good (cfg : Cfg) (c : Ctx) (kvTable : String) (hkv : cfg.kind kvTable = .index) :
+    GoodD cfg (winT c) (allTags c kvTable) := by
+  unfold allTags
+  refine GoodD.leaf rfl (fun ok => bodyConfined_mono cfg _ [] ok (by intro x hx; cases hx) _ ?_) rfl
+    (by simp [isIndexSelection, fromTable, hkv])
+  have hc : conjuncts (some (and_ [ge (.raw "date") (.str (Time.formatFromDate c.fromNs)),
+      le (.raw "date") (.str (Time.formatDate (Int.fdiv c.toNs 1000000000)))])) =
+      [ge (.raw "date") (.str (Time.formatFromDate c.fromNs)),
+       le (.raw "date") (.str (Time.formatDate (Int.fdiv c.toNs 1000000000)))] :=
+    conjuncts_and_flat _ (by
+      intro e he
+      simp only [List.mem_cons, List.not_mem_nil, or_false] at he
+      rcases he with rfl | rfl <;> exact splice_logical _ _ (by decide))
+  simp only [bodyConfined, fromTable, hkv, conjuncts_none, List.nil_append, hc]
+  simp [List.all, List.any, dateLower, dateUpper, mentionsDate, isDateCol, ge, le, lowerInstants, upperInstants, winT,
+    fdiv_sec, Time.formatFromDate, secOf]
+
+/-- `AllValuesRequestPlanner.Process` -/
+theorem allValues_good (cfg : Cfg) (c : Ctx) (kvTable : String) (hkv : cfg.kind kvTable = .index) (key : Bytes) :
+    GoodD cfg (winT c) (allValues c kvTable key) := by
+  unfold allValues
+  refine GoodD.leaf rfl (fun ok => bodyConfined_mono cfg _ [] ok (by intro x hx; cases hx) _ ?_) rfl
+    (by simp [isIndexSelection, fromTable, hkv])
+  have hc : conjuncts (some (and_ [ge (.raw "date") (.str (Time.formatFromDate c.fromNs)),
+      le (.raw "date") (.str (Time.formatDate (Int.fdiv c.toNs 1000000000))), eq (.raw "key") (.str key)])) =
+      [ge (.raw "date") (.str (Time.formatFromDate c.fromNs)),
+       le (.raw "date") (.str (Time.formatDate (Int.fdiv c.toNs 1000000000))), eq (.raw "key") (.str key)] :=
+    conjuncts_and_flat _ (by
+      intro e he
+      simp only [List.mem_cons, List.not_mem_nil, or_false] at he
+      rcases he with rfl | rfl | rfl <;> exact splice_logical _ _ (by decide))
+  simp only [bodyConfined, fromTable, hkv, conjuncts_none, List.nil_append, hc]
+  simp [List.all, List.any, dateLower, dateUpper, mentionsDate, isDateCol, ge, le, eq, lowerInstants, upperInstants, winT,
+    fdiv_sec, Time.formatFromDate, secOf]
+
 /-- `PlanTagsV2(script).Process(ctx)` -/
-theorem planTags_good (cfg : Cfg) (c : Ctx) (h : TraceCfg cfg c) (script : Script) (s : Sel)
-    (hs : planTags c script = .ok s) : GoodD cfg (winT c) s := by
+theorem planTags_good (cfg : Cfg) (c : Ctx) (h : TraceCfg cfg c) (kvTable : String) (hkv : cfg.kind kvTable = .index)
+    (script : Script) (s : Sel) (hs : planTags c kvTable script = .ok s) : GoodD cfg (winT c) s := by
   unfold planTags at hs
   cases ht : tagsMain c script with
   | error e => simp [ht, bind, Except.bind] at hs
   | ok om =>
     cases om with
-    | none => simp [ht, bind, Except.bind, throw, throwThe, MonadExceptOf.throw] at hs
+    | none =>
+      simp only [ht, bind, Except.bind, pure, Except.pure, Except.ok.injEq] at hs
+      subst hs
+      exact allTags_good cfg c kvTable hkv
     | some m =>
       simp only [ht, bind, Except.bind, pure, Except.pure, Except.ok.injEq] at hs
       subst hs
@@ -648,6 +688,9 @@ theorem key_nodate (key : Bytes) : ∀ e ∈ [eq (.raw "key") (.str key)].flatMa
   subst he
   rfl
 
+theorem GoodD.setGroupBy {cfg : Cfg} {w : Window} {s : Sel} (g : GoodD cfg w s) (e : List Expr) : GoodD cfg w (s.setGroupBy e) :=
+  g.congr (by cases s; rfl) (by cases s; rfl) (by cases s; rfl) (by cases s; rfl)
+
 /-- `PlanValuesV2(script, key).Process(ctx)` -/
 theorem planValues_good (cfg : Cfg) (c : Ctx) (h : TraceCfg cfg c) (kvTable : String) (hkv : cfg.kind kvTable = .index)
     (key : Bytes) (script : Script) (s : Sel) (hs : planValues c kvTable key script = .ok s) : GoodD cfg (winT c) s := by
@@ -659,38 +702,18 @@ theorem planValues_good (cfg : Cfg) (c : Ctx) (h : TraceCfg cfg c) (kvTable : St
     | none =>
       simp only [ht, bind, Except.bind, pure, Except.pure, Except.ok.injEq] at hs
       subst hs
-      refine GoodD.leaf rfl (fun ok => bodyConfined_mono cfg _ [] ok (by intro x hx; cases hx) _ ?_) rfl
-        (by simp [isIndexSelection, fromTable, hkv])
-      have hc : conjuncts (some (and_ [ge (.raw "date") (.str (Time.formatFromDate c.fromNs)),
-          le (.raw "date") (.str (Time.formatDate (Int.fdiv c.toNs 1000000000))), eq (.raw "key") (.str key)])) =
-          [ge (.raw "date") (.str (Time.formatFromDate c.fromNs)),
-           le (.raw "date") (.str (Time.formatDate (Int.fdiv c.toNs 1000000000))), eq (.raw "key") (.str key)] :=
-        conjuncts_and_flat _ (by
-          intro e he
-          simp only [List.mem_cons, List.not_mem_nil, or_false] at he
-          rcases he with rfl | rfl | rfl <;> exact splice_logical _ _ (by decide))
-      simp only [bodyConfined, fromTable, hkv, conjuncts_none, List.nil_append, hc]
-      simp [List.all, List.any, dateLower, dateUpper, mentionsDate, isDateCol, ge, le, eq, lowerInstants, upperInstants, winT,
-        fdiv_sec, Time.formatFromDate, secOf]
+      exact allValues_good cfg c kvTable hkv key
     | some m =>
       simp only [ht, bind, Except.bind, pure, Except.pure, Except.ok.injEq] at hs
       subst hs
       have gm := (tagsMain_some cfg c h script m ht).good h.attrs
       have g1 := tagsOrder_good c "key" (selectTags_good cfg c h "key" gm)
       obtain ⟨p1, p2, p3, p4⟩ := tagsOrder_proj c "key" (selectTags c "key" m)
-      have key : ∀ t : Sel, GoodD cfg (winT c) t → fromTable (fromOf t) = some c.attrsDistTable →
-          bodyConfined cfg (winT c) [] t = true →
-          GoodD cfg (winT c) (tagsOrder c "val"
-            ((match t with | .mk ws d _ f j p w g h o l => Sel.mk ws d [simpleCol "val" "val"] f j p w g h o l).andWhere
-              [eq (.raw "key") (.str key)])) := by
-        intro t gt hft hbt
-        cases t with
-        | mk ws d cols f j p w g hv o l =>
-          show GoodD cfg (winT c) (tagsOrder c "val" (((Sel.mk ws d cols f j p w g hv o l).setCols [simpleCol "val" "val"]).andWhere _))
-          apply tagsOrder_good
-          exact (gt.setCols _).andWhereIdx c.attrsDistTable (by simpa using hft) h.attrsDist (by simpa using hbt) _ (key_nodate key)
-      apply key _ g1 (by simp [p1, selectTags_from, fromTable])
-      rw [bodyConfined_congr cfg _ [] _ _ p1 p2 p3]
-      exact selectTags_body cfg c h "key" m
+      apply tagsOrder_good
+      apply GoodD.setGroupBy
+      refine (g1.setCols _).andWhereIdx c.attrsDistTable ?_ h.attrsDist ?_ _ (key_nodate key)
+      · simp [p1, selectTags_from, fromTable]
+      · rw [bodyConfined_setCols, bodyConfined_congr cfg _ [] _ _ p1 p2 p3]
+        exact selectTags_body cfg c h "key" m
 
 end Qryn.Confine
